@@ -17,6 +17,10 @@ type roundMonitor struct {
 	sinceReopen  int    // accepted actions since the last wager increase or all-in
 	bettingOpen  bool
 	maxRound     int64
+	// C12: the size of the last full bet or raise of the round, followed independently of the engine's
+	// own bookkeeping (the big blind before any; a short all-in is not a raise and leaves it alone)
+	fullRaise int64
+	haveFull  bool
 }
 
 func alive(gs *pf.GameState) int {
@@ -340,7 +344,10 @@ func (h *hand) afterOp(pre, gs *pf.GameState, op GameOp, err error) {
 	}
 	// ---- a betting round opens
 	if ev == "RoundStarted" && pev != "RoundStarted" {
-		h.mon = roundMonitor{round: gs.Status.Round, turnSince: make([]bool, n), bettingOpen: true}
+		h.mon = roundMonitor{round: gs.Status.Round, turnSince: make([]bool, n), bettingOpen: true, haveFull: true}
+		if gs.Status.Round == "preflop" {
+			h.mon.fullRaise = gs.Status.PreviousRaiseSize // checked against the blinds by the C13 oracle
+		}
 		first := gs.Status.CurrentPlayer
 		want := -1
 		if gs.Status.Round == "preflop" {
@@ -378,6 +385,7 @@ func (h *hand) afterOp(pre, gs *pf.GameState, op GameOp, err error) {
 			actor = op.Who
 		}
 		h.actionEffects(pre, gs, op, actor)
+		h.followFullRaise(pre, gs, actor)
 		cwUp := gs.Status.CurrentWager > pre.Status.CurrentWager && gs.Status.Round == pre.Status.Round && pre.Status.CurrentEvent == "RoundStarted"
 		wentAllin := pre.Players[actor].StackSize > 0 && gs.Players[actor].StackSize == 0
 		if len(h.mon.turnSince) == n {
@@ -513,6 +521,38 @@ func (h *hand) actionEffects(pre, gs *pf.GameState, op GameOp, actor int) {
 		}
 		if L > cw0 && L-cw0 < prs && p.StackSize != 0 {
 			h.viol("C12", "undersized-raise-carried-out", fmt.Sprintf("raise to %d lifts %d by less than %d and the player keeps %d", L, cw0, prs, p.StackSize))
+		}
+		// the same two statements against the last full bet or raise as followed by the harness
+		if full := h.mon.fullRaise; h.mon.haveFull && full != prs {
+			if L > cw0 && L < pp.InitialStackSize && L-cw0 >= full {
+				if cw1 != L || gs.Status.CurrentRaiser != actor || gs.Status.PreviousRaiseSize != L-cw0 || p.Wager != L {
+					h.viol("C12", "legal-raise-not-exact", fmt.Sprintf("raise to %d (was %d, last full raise %d, engine's minimum %d): to match %d, raiser %d, new min %d, wager %d", L, cw0, full, prs, cw1, gs.Status.CurrentRaiser, gs.Status.PreviousRaiseSize, p.Wager))
+				}
+			}
+			if L > cw0 && L-cw0 < full && p.StackSize != 0 {
+				h.viol("C12", "undersized-raise-carried-out", fmt.Sprintf("raise to %d lifts %d by less than the last full raise %d (engine's minimum %d) and the player keeps %d", L, cw0, full, prs, p.StackSize))
+			}
+		}
+	}
+}
+
+// followFullRaise: the last full bet or raise of the round after an accepted action
+func (h *hand) followFullRaise(pre, gs *pf.GameState, actor int) {
+	if !h.mon.haveFull {
+		return
+	}
+	pp, p := pre.Players[actor], gs.Players[actor]
+	cw0, cw1 := pre.Status.CurrentWager, gs.Status.CurrentWager
+	switch p.DidAction {
+	case "bet":
+		h.mon.fullRaise = p.Wager - pp.Wager
+	case "raise":
+		if cw1 > cw0 {
+			h.mon.fullRaise = cw1 - cw0
+		}
+	case "allin":
+		if up := p.Wager - cw0; pp.StackSize > 0 && up >= h.mon.fullRaise {
+			h.mon.fullRaise = up
 		}
 	}
 }
@@ -749,6 +789,7 @@ func (h *hand) probe() {
 				}
 				pre := cloneState(gs)
 				h2 := &hand{o: h.o, cfg: h.cfg, ops: append(append([]GameOp{}, h.ops...), op), flags: map[string]bool{}}
+				h2.mon.fullRaise, h2.mon.haveFull = h.mon.fullRaise, h.mon.haveFull
 				h2.actionEffects(pre, x.GetState(), op, who)
 			}
 			if op.Code == 15 && err == nil {
@@ -758,6 +799,7 @@ func (h *hand) probe() {
 				}
 				pre := cloneState(gs)
 				h2 := &hand{o: h.o, cfg: h.cfg, ops: append(append([]GameOp{}, h.ops...), op), flags: map[string]bool{}}
+				h2.mon.fullRaise, h2.mon.haveFull = h.mon.fullRaise, h.mon.haveFull
 				h2.actionEffects(pre, x.GetState(), op, who)
 			}
 		}
@@ -961,6 +1003,7 @@ func treeWalk(o *Out, h *hand, depth int) int {
 	savedOps := append([]GameOp{}, h.ops...)
 	savedTwin := h.twin
 	savedMon := h.mon
+	savedMon.turnSince = append([]bool{}, h.mon.turnSince...) // own copy: the first branch writes into h.mon's slice
 	for k, op := range ops {
 		if k > 0 {
 			// restore implementation and model to the branching point
